@@ -153,6 +153,111 @@ pub fn exchange(addr: SocketAddr, req: &HttpReq, enc: Encoding, write_sizes: &[u
     parse_response(&buf, req.method == "HEAD").ok_or_else(|| SockError::NoResponse(format!("{} bytes received, no complete response; write: {werr:?}", buf.len())))
 }
 
+/// A persistent (keep-alive) connection: several requests, possibly of different clients, travel
+/// over one TCP connection, as behind a connection-pooling proxy.
+pub struct KeepAlive {
+    addr: SocketAddr,
+    stream: Option<TcpStream>,
+    pub requests_on_this_connection: u32,
+}
+
+impl KeepAlive {
+    pub fn new(addr: SocketAddr) -> KeepAlive {
+        KeepAlive { addr, stream: None, requests_on_this_connection: 0 }
+    }
+
+    pub fn call(&mut self, req: &HttpReq, timeout: Duration) -> Result<HttpResp, SockError> {
+        // one retry on a fresh connection if the server closed the old one meanwhile
+        for attempt in 0..2 {
+            if self.stream.is_none() {
+                let s = TcpStream::connect_timeout(&self.addr, timeout).map_err(|e| SockError::Io(format!("connect {}: {e}", self.addr)))?;
+                let _ = s.set_read_timeout(Some(timeout));
+                let _ = s.set_write_timeout(Some(timeout));
+                let _ = s.set_nodelay(true);
+                self.stream = Some(s);
+                self.requests_on_this_connection = 0;
+            }
+            let total: usize = req.chunks.iter().map(|c| c.len()).sum();
+            let mut msg = Vec::new();
+            msg.extend_from_slice(format!("{} {} HTTP/1.1\r\nHost: {}\r\n", req.method, req.path, self.addr).as_bytes());
+            for (n, v) in &req.headers {
+                if n.eq_ignore_ascii_case("content-length") || n.eq_ignore_ascii_case("transfer-encoding") || n.eq_ignore_ascii_case("connection") {
+                    continue;
+                }
+                msg.extend_from_slice(n.as_bytes());
+                msg.extend_from_slice(b": ");
+                msg.extend_from_slice(v);
+                msg.extend_from_slice(b"\r\n");
+            }
+            if !req.chunks.is_empty() {
+                msg.extend_from_slice(format!("Content-Length: {total}\r\n").as_bytes());
+            }
+            msg.extend_from_slice(b"\r\n");
+            for c in &req.chunks {
+                msg.extend_from_slice(c);
+            }
+            let s = self.stream.as_mut().unwrap();
+            let fresh = self.requests_on_this_connection == 0;
+            if s.write_all(&msg).and_then(|_| s.flush()).is_err() {
+                self.stream = None;
+                if attempt == 0 && !fresh {
+                    continue;
+                }
+                return Err(SockError::NoResponse("write failed".into()));
+            }
+            let mut buf: Vec<u8> = Vec::new();
+            let mut tmp = [0u8; 65536];
+            loop {
+                if let Some((resp, used)) = parse_one(&buf, req.method == "HEAD") {
+                    let _ = used;
+                    self.requests_on_this_connection += 1;
+                    let close = resp.headers.iter().any(|(k, v)| k.eq_ignore_ascii_case("connection") && String::from_utf8_lossy(v).to_ascii_lowercase().contains("close"));
+                    if close {
+                        self.stream = None;
+                    }
+                    return Ok(resp);
+                }
+                match self.stream.as_mut().unwrap().read(&mut tmp) {
+                    Ok(0) => {
+                        self.stream = None;
+                        if buf.is_empty() && attempt == 0 && !fresh {
+                            break; // the server had closed the idle connection: try once more
+                        }
+                        return parse_response(&buf, req.method == "HEAD").ok_or_else(|| SockError::NoResponse(format!("connection closed after {} bytes", buf.len())));
+                    }
+                    Ok(n) => buf.extend_from_slice(&tmp[..n]),
+                    Err(e) => {
+                        self.stream = None;
+                        return Err(SockError::NoResponse(format!("read: {e}")));
+                    }
+                }
+            }
+        }
+        Err(SockError::NoResponse("no response on a fresh connection either".into()))
+    }
+}
+
+/// Parse one response with explicit framing from the front of `buf`; None if it is not complete.
+fn parse_one(buf: &[u8], head_request: bool) -> Option<(HttpResp, usize)> {
+    let hend = find(buf, b"\r\n\r\n")?;
+    let head = String::from_utf8_lossy(&buf[..hend]).to_ascii_lowercase();
+    let status: u16 = head.split(' ').nth(1)?.parse().ok()?;
+    let body_start = hend + 4;
+    if head_request || status == 204 || status == 304 {
+        return parse_response(&buf[..body_start], head_request).map(|r| (r, body_start));
+    }
+    if head.contains("transfer-encoding: chunked") {
+        // complete when the terminating chunk has arrived
+        let end = find(&buf[body_start..], b"0\r\n\r\n")? + body_start + 5;
+        return parse_response(&buf[..end], false).map(|r| (r, end));
+    }
+    let cl = head.lines().find_map(|l| l.strip_prefix("content-length:")).and_then(|v| v.trim().parse::<usize>().ok())?;
+    if buf.len() < body_start + cl {
+        return None;
+    }
+    parse_response(&buf[..body_start + cl], false).map(|r| (r, body_start + cl))
+}
+
 fn find(h: &[u8], n: &[u8]) -> Option<usize> {
     h.windows(n.len()).position(|w| w == n)
 }
